@@ -11,6 +11,8 @@ import (
 	"time"
 
 	"golang.org/x/exp/mmap"
+
+	"github.com/klev-dev/klevdb/pkg/vhook"
 )
 
 var (
@@ -129,6 +131,7 @@ func OpenWriter(path string, offset int64, newVersion Version) (w *Writer, retEr
 	pos := stat.Size()
 	var v Version
 	if pos == 0 {
+		vhook.FSEvent("create", path, "", 0, 0)
 		h, err := newVersion.newHeader()
 		if err != nil {
 			return nil, fmt.Errorf("write log header: %w", err)
@@ -136,6 +139,7 @@ func OpenWriter(path string, offset int64, newVersion Version) (w *Writer, retEr
 		if _, err := f.Write(h[:]); err != nil {
 			return nil, fmt.Errorf("write log header: %w", err)
 		}
+		vhook.FSEvent("write", path, "", 0, int64(len(h)))
 		pos = int64(len(h))
 		v = newVersion
 	} else {
@@ -209,6 +213,7 @@ func (w *Writer) writeV1(m Message) (int64, error) {
 	} else {
 		w.pos += int64(n)
 	}
+	vhook.FSEvent("write", w.Path, "", pos, int64(len(w.buff)))
 	return pos, nil
 }
 
@@ -256,6 +261,7 @@ func (w *Writer) writeV2(m Message) (int64, error) {
 	} else {
 		w.pos += int64(n)
 	}
+	vhook.FSEvent("write", w.Path, "", pos, int64(len(w.buff)))
 	return pos, nil
 }
 
@@ -267,6 +273,7 @@ func (w *Writer) Sync() error {
 	if err := w.f.Sync(); err != nil {
 		return fmt.Errorf("write log sync: %w", err)
 	}
+	vhook.FSEvent("fsync", w.Path, "", 0, 0)
 	return nil
 }
 
